@@ -217,6 +217,57 @@ def run_threads(tasks, schedule, fresh_tables):
     return res, sch.switches
 
 
+FRESH = r"""
+import sys, json
+sys.path.insert(0, '/verif')
+from harness.props import C18
+tasks, schedule = json.load(sys.stdin)
+tasks = [tuple(t) for t in tasks]
+res, switches = C18.run_threads(tasks, [tuple(x) for x in schedule], False)
+print('RESULT ' + json.dumps([repr(r) for r in res]))
+"""
+
+
+def first_use_in_fresh_process(ctx, n):
+    """the very first use of parso in a process happens under a forced interleaving: tables that are built on first use (grammars, token collections and
+    whatever else is memoised at module level) are being filled by one thread while the others already look at them; the results must be those of a
+    sequential run"""
+    import subprocess, json
+    for i in range(n):
+        r = gens.rng(ctx.seed, 'fresh-process', i)
+        tasks = gen_tasks(r, r.randint(2, 5))
+        tasks = [t for t in tasks if len(t[2]) < 400]
+        if len(tasks) < 2:
+            continue
+        nt = len(tasks)
+        # loading a grammar is hundreds of thousands of lines: slots of very different lengths, enough of them to cover the whole first use
+        schedule = [(r.randrange(nt), r.choice([1, 2, 5, 13, 40, 100, 300, 1000, 3000])) for _ in range(r.randint(1500, 4000))]
+        exp = []
+        for t in tasks:
+            try:
+                exp.append(('ok', do_task(t)))
+            except Exception as e:
+                exp.append(('exc', preds.crash_sig(e)))
+        common.keepalive()
+        try:
+            p = subprocess.run(['/venv/bin/python', '-c', FRESH], input=json.dumps([[list(t) for t in tasks], schedule]), capture_output=True, text=True,
+                               timeout=300, env=dict(os.environ, PYTHONPATH='/repo', PYTHONHASHSEED='0', PYTHONDONTWRITEBYTECODE='1'))
+        except subprocess.TimeoutExpired:
+            ctx.violation('C18:first-use-under-interleaving-does-not-finish', dict(kind='schedule', tasks=[list(t) for t in tasks], schedule=schedule))
+            continue
+        ctx.count('fresh-process-schedules')
+        line = next((l for l in p.stdout.split('\n') if l.startswith('RESULT ')), None)
+        if line is None:
+            ctx.violation('C18:first-use-under-interleaving-crashes', dict(kind='schedule', tasks=[list(t) for t in tasks], schedule=schedule, stderr=p.stderr[-600:]))
+            continue
+        got = json.loads(line[7:])
+        want = [repr(x) for x in exp]
+        if got != want:
+            k = next(j for j in range(nt) if got[j] != want[j])
+            ctx.violation('C18:first-use-under-interleaving-differs-from-sequential:%s' % tasks[k][0],
+                          dict(kind='schedule', tasks=[list(t) for t in tasks], schedule=schedule, differing_task=k, observed=got[k][:300], expected=want[k][:300]))
+
+
 def run(ctx, b, drv):
     pend = base.Pending(ctx)
     base.obligations(ctx, b, pend, ['Memo.v', 'Properties/C18.v'])
@@ -291,6 +342,7 @@ def run(ctx, b, drv):
         if fp1 != fp0:
             diff = [k for k in set(fp0) | set(fp1) if fp0.get(k) != fp1.get(k)]
             ctx.violation('C18:shared-state-changed-by-threaded-run', dict(kind='schedule', tasks=[list(t) for t in tasks], schedule=schedule, changed=diff))
+    first_use_in_fresh_process(ctx, 30 if ctx.tier == 'quick' else 200)
     pend.flush()
     ctx.cov['rule'] = ('2-8 threads, each one parse / iter_errors / tokenize task on shared grammar objects, switch points forced at line granularity by a generated '
                        'schedule of (thread, quantum) slots; memo tables emptied before every second run; non-trivial = run with forced switches')
